@@ -1,15 +1,25 @@
 /* C04 - bounded drives of really lowered async coroutines (DESIGN 3.8): the scenario functions drive_* of drivers/c04_async.cpp are real
  * C++ against the public API; clang has lowered the scripted coroutines to ramp/.resume/.destroy functions, which run here symbolically
  * (symbolic argument value, concrete shape).  Oracles: the body ran exactly once, the value/exception reached exactly the bound party,
- * every Guard (argument copy and local) constructed was destroyed exactly once, every allocation (the frames) was freed exactly once.
- * Bounded (one scenario = one start mode x completion mode, nesting depth <= 2, one suspension): labelled so, never counted as proved. */
+ * every Guard (argument copy and local) constructed was destroyed exactly once, every allocation (the frames) was freed exactly once,
+ * the bound future is READY (not merely holding a value) when the scenario looks at it.
+ * Bounded (one scenario = one start mode x completion mode, nesting depth <= 3, one suspension): labelled so, never counted as proved.
+ * The scenarios in which a coroutine really suspends on a pending future and is resumed later, and the nested co_await chains, read the
+ * std::atomic<T*> members at member-function level (specs/C04/drive_atomics.h; units.py sdrive() explains why that makes them decidable). */
 #define G(x) (*(&G_##x))
 static void drive_reset(void) {
   cv_exc_pending = 0; gh_allocs = 0; gh_frees = 0;
   for (int i = 0; i < 4; i++) G_g_body_runs[i] = 0;
-  G_g_guard_ctor = 0; G_g_guard_dtor = 0; G_g_seen_value = -1; G_g_seen_exc = -1; G_g_seen_canceled = 0; }
+  G_g_guard_ctor = 0; G_g_guard_dtor = 0; G_g_seen_value = -1; G_g_seen_exc = -1; G_g_seen_canceled = 0; G_g_outer_runs = 0; G_g_seen_pending = 0; }
+#ifdef CV_HAS_ap_aw_xchg   /* units that read std::atomic<T*> at member level (specs/C04/drive_atomics.h): the model must really have been exercised */
+#define AP_REACHED __CPROVER_assert(gh_ap_ops >= 2, "model reachability: the std::atomic<T*> member-level model was exercised")
+#else
+#define AP_REACHED
+#endif
 #define COMMON_END(frames_min) \
+  AP_REACHED; \
   __CPROVER_assert(cv_exc_pending == 0, "no exception escapes the scenario"); \
+  __CPROVER_assert(G_g_seen_pending == 0, "the bound future is READY when the scenario looks at it (resolved, not merely holding a value)"); \
   __CPROVER_assert(G_g_guard_ctor == G_g_guard_dtor && G_g_guard_ctor >= 1, "every argument/local of the coroutine destroyed exactly once"); \
   __CPROVER_assert(gh_allocs == gh_frees && gh_allocs >= (frames_min), "every coroutine frame freed exactly once"); \
   __CPROVER_assert(*(&G__ZN5cocls10coro_queue8instanceE) == 0, "back in normal mode: no ready queue left installed"); \
@@ -68,15 +78,73 @@ void h_drive(void) { cv_i32 x = nondet_unsigned(); drive_reset(); cv_i32 r = dri
 #endif
 #ifdef DRV_susp_resolved_later
 void h_drive(void) { cv_i32 x = nondet_unsigned(); drive_reset(); cv_i32 r = drive_susp_resolved_later(x); __CPROVER_assert(r == 1, "coroutine suspended on the pending future, then completed");
-  RUNS(2, 1); __CPROVER_assert(G_g_seen_value == (cv_i32)(x * 2), "completion after suspension: the value reaches the bound future"); COMMON_END(1); }
+  RUNS(2, 1); __CPROVER_assert(G_g_seen_value == (cv_i32)(x * 2) && G_g_seen_exc == -1 && G_g_seen_canceled == 0, "completion after suspension: the value reaches the bound future"); COMMON_END(1); }
 #endif
 #ifdef DRV_susp_dropped
 void h_drive(void) { cv_i32 x = nondet_unsigned(); drive_reset(); cv_i32 r = drive_susp_dropped(x); __CPROVER_assert(r == 1, "scenario completed");
-  RUNS(2, 1); __CPROVER_assert(G_g_seen_canceled == 1 && G_g_seen_value == -1, "awaited promise dropped: the coroutine ends with await_canceled_exception, which reaches the bound future"); COMMON_END(1); }
+  RUNS(2, 1); __CPROVER_assert(G_g_seen_canceled == 1 && G_g_seen_value == -1 && G_g_seen_exc == -1, "awaited promise dropped: the coroutine ends with await_canceled_exception, which reaches the bound future"); COMMON_END(1); }
 #endif
 #ifdef DRV_nested
 void h_drive(void) { cv_i32 x = nondet_unsigned(); drive_reset(); cv_i32 r = drive_nested(x); __CPROVER_assert(r == 1, "scenario completed");
-  RUNS(3, 1); RUNS(0, 1); __CPROVER_assert(G_g_seen_value == (cv_i32)(x + 101), "co_await of a child coroutine: child value reaches the parent, parent value the future"); COMMON_END(2); }
+  RUNS(3, 1); RUNS(0, 1); __CPROVER_assert(G_g_seen_value == (cv_i32)(x + 101) && G_g_seen_exc == -1 && G_g_seen_canceled == 0, "co_await of a child coroutine: child value reaches the parent, parent value the future"); COMMON_END(2); }
+#endif
+/* ---- completion after suspension x start mode / completion mode; deeper, failing and suspending co_await chains */
+#define SEEN(v, e, c, txt) __CPROVER_assert(G_g_seen_value == (v) && G_g_seen_exc == (e) && G_g_seen_canceled == (c), txt)
+#ifdef DRV_susp_exception
+void h_drive(void) { cv_i32 x = nondet_unsigned(); __CPROVER_assume(x != (cv_i32)-1); drive_reset(); cv_i32 r = drive_susp_exception(x); __CPROVER_assert(r == 1, "coroutine suspended on the pending future, then completed");
+  RUNS(2, 1); SEEN(-1, x, 0, "awaited future resolved with an exception: it is rethrown in the coroutine and reaches the bound future, nothing else does"); COMMON_END(1); }
+#endif
+#ifdef DRV_susp_promise
+void h_drive(void) { cv_i32 x = nondet_unsigned(); drive_reset(); cv_i32 r = drive_susp_promise(x); __CPROVER_assert(r == 1, "coroutine suspended on the pending future (promise's future still pending), then completed");
+  RUNS(2, 1); SEEN((cv_i32)(x * 2), -1, 0, "start(promise), completion after suspension: the value reaches the promise's future"); COMMON_END(1); }
+#endif
+#ifdef DRV_susp_detached
+void h_drive(void) { cv_i32 x = nondet_unsigned(); drive_reset(); cv_i32 r = drive_susp_detached(x); __CPROVER_assert(r == 1, "detached coroutine ran up to its suspension (body entered once, arguments alive), then completed");
+  RUNS(2, 1); SEEN(-1, -1, 0, "detach(): nobody is bound"); COMMON_END(1); }
+#endif
+#ifdef DRV_susp_detached_dropped
+void h_drive(void) { cv_i32 x = nondet_unsigned(); drive_reset(); cv_i32 r = drive_susp_detached_dropped(x); __CPROVER_assert(r == 1, "detached coroutine ran up to its suspension (body entered once, arguments alive), then was cancelled");
+  RUNS(2, 1); SEEN(-1, -1, 0, "detach(): nobody is bound - the cancellation exception of the detached coroutine goes nowhere"); COMMON_END(1); }
+#endif
+#ifdef DRV_detach_throw
+void h_drive(void) { cv_i32 x = nondet_unsigned(); drive_reset(); cv_i32 r = drive_detach_throw(x); __CPROVER_assert(r == 1, "scenario completed");
+  RUNS(1, 1); SEEN(-1, -1, 0, "detach(): nobody is bound - the exception of the detached coroutine goes nowhere"); COMMON_END(1); }
+#endif
+#ifdef DRV_susp_void
+void h_drive(void) { cv_i32 x = nondet_unsigned(); drive_reset(); cv_i32 r = drive_susp_void(x); __CPROVER_assert(r == 1, "coroutine suspended on the pending future, then completed");
+  RUNS(2, 1); SEEN(x, -1, 0, "async<void>, completion after suspension: the awaited value reached the coroutine, its completion the bound future<void>"); COMMON_END(1); }
+#endif
+#ifdef DRV_nested_void
+void h_drive(void) { cv_i32 x = nondet_unsigned(); drive_reset(); cv_i32 r = drive_nested_void(x); __CPROVER_assert(r == 1, "scenario completed");
+  RUNS(3, 1); RUNS(0, 1); SEEN((cv_i32)(x + 100), -1, 0, "co_await of an async<void> child: the parent continues after the child ran, the parent's value reaches the future"); COMMON_END(2); }
+#endif
+#ifdef DRV_susp_twice
+void h_drive(void) { cv_i32 x = nondet_unsigned(); cv_i32 y = nondet_unsigned(); drive_reset(); cv_i32 r = drive_susp_twice(x, y); __CPROVER_assert(r == 1, "coroutine suspended twice (future pending, argument + two locals alive in between), then completed");
+  RUNS(2, 1); SEEN((cv_i32)(x * 2 + y), -1, 0, "two suspensions: both awaited values reach the coroutine, its value the bound future"); COMMON_END(1); }
+#endif
+#ifdef DRV_susp_ready
+void h_drive(void) { cv_i32 x = nondet_unsigned(); drive_reset(); cv_i32 r = drive_susp_ready(x); __CPROVER_assert(r == 1, "scenario completed");
+  RUNS(2, 1); SEEN((cv_i32)(x * 2), -1, 0, "co_await of an already resolved future: no suspension, the value reaches the bound future"); COMMON_END(1); }
+#endif
+#ifdef DRV_nested_throw
+void h_drive(void) { cv_i32 x = nondet_unsigned(); __CPROVER_assume(x != (cv_i32)-1); drive_reset(); cv_i32 r = drive_nested_throw(x); __CPROVER_assert(r == 1, "scenario completed");
+  RUNS(3, 1); RUNS(1, 1); SEEN(-1, x, 0, "co_await of a throwing child: the exception reaches the parent (its bound party), the parent's exception reaches the future"); COMMON_END(2); }
+#endif
+#ifdef DRV_nested_catch
+void h_drive(void) { cv_i32 x = nondet_unsigned(); drive_reset(); cv_i32 r = drive_nested_catch(x); __CPROVER_assert(r == 1, "scenario completed");
+  RUNS(3, 1); RUNS(1, 1); SEEN((cv_i32)(x + 7), -1, 0, "co_await of a throwing child: the parent catches exactly the child's exception; its own value reaches the future"); COMMON_END(2); }
+#endif
+#ifdef DRV_nested_susp
+void h_drive(void) { cv_i32 x = nondet_unsigned(); drive_reset(); cv_i32 r = drive_nested_susp(x); __CPROVER_assert(r == 1, "child suspended inside the parent's co_await (future pending), then completed");
+  RUNS(3, 1); RUNS(2, 1); SEEN((cv_i32)(x * 2 + 100), -1, 0, "child completes after suspension: its value reaches the awaiting parent, the parent's value the future"); COMMON_END(2); }
+#endif
+#ifdef DRV_nested_susp_dropped
+void h_drive(void) { cv_i32 x = nondet_unsigned(); drive_reset(); cv_i32 r = drive_nested_susp_dropped(x); __CPROVER_assert(r == 1, "child suspended inside the parent's co_await (future pending), then cancelled");
+  RUNS(3, 1); RUNS(2, 1); SEEN(-1, -1, 1, "promise awaited by the child dropped: await_canceled_exception travels child -> parent -> bound future"); COMMON_END(2); }
+#endif
+#ifdef DRV_nested3
+void h_drive(void) { cv_i32 x = nondet_unsigned(); drive_reset(); cv_i32 r = drive_nested3(x); __CPROVER_assert(r == 1, "scenario completed");
+  __CPROVER_assert(G_g_outer_runs == 1, "body executed exactly the expected number of times"); RUNS(3, 1); RUNS(0, 1); SEEN((cv_i32)(x + 1101), -1, 0, "co_await chain of depth 3: each value reaches exactly the awaiting coroutine, the outermost value the future"); COMMON_END(3); }
 #endif
 #ifdef DRV_void
 void h_drive(void) { cv_i32 x = nondet_unsigned(); drive_reset(); cv_i32 r = drive_void(x); __CPROVER_assert(r == 1, "scenario completed");
